@@ -51,6 +51,11 @@ def broker_stream(run):
                {"op": "data", "s": 4, "d": "", "err": "eof"}, {"op": "release", "s": 4},
                {"op": "admit", "s": 5, "d": "out", "key": B.K(other)}]                                          # tear-down window
         cases.append({"i": k, "ops": ops, "ids": [hid.decode(), other.decode()]})
+        # a bidirectional /io client arrives while a unidirectional side with a hostile ID is attached: both its halves are rejected,
+        # and the notices name the ID that is expected
+        ops2 = [{"op": "admit", "s": 1, "d": "in", "key": B.K(hid), "wk": "plain", "wfail": -1, "ffail": -1},
+                {"op": "ioreq", "si": 6, "so": 7, "wk": "plain", "wfail": -1, "ffail": -1}, {"op": "go", "s": 7}, {"op": "go", "s": 6}]
+        cases.append({"i": 1000 + k, "ops": ops2, "ids": [hid.decode(), other.decode()], "io_expected": hid.decode()})
     res, err = vlib.run_overlay_test(binp, "TestVerifBroker", cases, run.rundir, tag="c10broker")
     bad, n = [], 0
     for c, r in zip(cases, res or []):
@@ -62,6 +67,8 @@ def broker_stream(run):
                 text, sid = x[5], int(x[1][1:])
                 n += 1
                 want = '"%s"' % keyof.get(sid, "")
+                if x[1].startswith("r"):             # a half of the /io request: the notice names the ID of the shell that is attached
+                    want = '"%s"' % c.get("io_expected", "")
                 if ("ID" in text and want not in text) or ("%!" in text and "%!" not in "".join(c["ids"])):
                     bad.append({"ids": c["ids"], "notice": text, "expected_to_contain": want})
     for b in bad[:1]:
